@@ -206,9 +206,24 @@ def _init_only_assignment(ctx: Ctx, c: Class):
     for name, f in c.methods.items():
         if name in ("__init__", "__new__"):
             continue
+        def rooted_in_self(e):
+            while isinstance(e, (ast.Attribute, ast.Subscript)):
+                e = e.value
+            return isinstance(e, ast.Name) and e.id == "self"
+
         for n in ast.walk(f.node):
             if isinstance(n, ast.Attribute) and isinstance(n.ctx, ast.Store) and isinstance(n.value, ast.Name) and n.value.id == "self":
                 ctx.violation("D1", "IM.closure", f"{c.name}.{name} assigns self.{n.attr}", f, n, why="a road network object shared by every state is changed after construction", construct=f"{c.name}.{name}:self-assign:{n.attr}")
+            elif isinstance(n, ast.Subscript) and isinstance(n.ctx, (ast.Store, ast.Del)) and rooted_in_self(n.value) and not isinstance(n.value, ast.Name):
+                ctx.violation("D1", "IM.closure", f"{c.name}.{name} writes into {flow.dump(n.value)[:40]}[...]", f, n,
+                              why="a container held by the road network object — reachable from every saved state — is changed after construction: the saved state no longer reads the same",
+                              construct=f"{c.name}.{name}:self-item-store:{flow.dump(n.value)[:40]}")
+            elif isinstance(n, ast.Call) and isinstance(n.func, ast.Attribute) and n.func.attr in MUTATING_METHODS and isinstance(n.func.value, (ast.Attribute, ast.Subscript)) \
+                    and rooted_in_self(n.func.value):
+                recv = flow.dump(n.func.value)
+                ctx.violation("D1", "IM.closure", f"{c.name}.{name} calls {recv[:40]}.{n.func.attr}(...)", f, n,
+                              why="a container held by the road network object — reachable from every saved state — is mutated after construction",
+                              construct=f"{c.name}.{name}:self-mutating-call:{recv[:40]}.{n.func.attr}")
 
 
 # ------------------------------------------------------------------------------------------ effects
